@@ -190,7 +190,11 @@ func (m *Machine) reportRace(t *Thread, pos, otherPos, otherKind string, write b
 // ---- threads ----
 
 func (m *Machine) spawn(parent *Thread, fn Value, args []Value, ins ssa.Instruction) {
-	t := &Thread{ID: len(m.threads), HeldMu: map[Ptr]int{}}
+	t := &Thread{ID: len(m.threads), HeldMu: map[Ptr]int{}, NID: -1}
+	if m.P.inHarnessPkg(ins) {
+		m.nextNID++
+		t.NID = m.nextNID
+	}
 	if parent != nil && parent.ID >= 0 {
 		t.clock = append([]int(nil), parent.clock...)
 		m.tick(parent)
@@ -381,7 +385,6 @@ func (m *Machine) schedule() *Thread {
 		m.preempts++
 	}
 	t.granted = true
-	m.sched = append(m.sched, t.ID)
 	return t
 }
 
@@ -403,7 +406,14 @@ func (m *Machine) run() {
 			}
 		}
 		vis := t.granted
+		if t.NID >= 0 && !t.opRecorded && m.recordable(t) {
+			m.sched = append(m.sched, t.NID)
+			t.opRecorded = true
+		}
 		m.step(t)
+		if t.State != tBlocked {
+			t.opRecorded = false
+		}
 		if vis {
 			t.granted = false
 		}
@@ -415,6 +425,12 @@ func (m *Machine) quiescent() bool {
 	main := m.threads[0]
 	if main.State == tBlocked && main.Wait != nil && main.Wait.kind == "quiesce" {
 		main.Wait.done = true
+		// the harness observes the quiescent state: everything that happened so far happens-before its next step
+		for _, t := range m.threads {
+			if t != main {
+				main.clock = vcJoin(main.clock, t.clock)
+			}
+		}
 		return true
 	}
 	if main.State == tBlocked {
@@ -836,4 +852,43 @@ func (m *Machine) doSelect(t *Thread, f *Frame, i *ssa.Select) {
 	}
 	f.Regs[i] = res
 	f.PC++
+}
+
+// recordable reports whether the next instruction of t is a visible operation that the native instrumenter gates with
+// verifSched(): a mutex Lock/RLock, Once.Do, WaitGroup.Wait, channel send/receive/select/close, time.Sleep or verifYield
+// located in a file of the harness package.
+func (m *Machine) recordable(t *Thread) bool {
+	f := t.top()
+	if f == nil || f.unwinding {
+		return false
+	}
+	ins := f.Block.Instrs[f.PC]
+	ok := false
+	switch i := ins.(type) {
+	case *ssa.Send, *ssa.Select:
+		ok = true
+	case *ssa.UnOp:
+		ok = i.Op == token.ARROW
+	case *ssa.Call:
+		if i.Call.IsInvoke() {
+			return false
+		}
+		switch v := i.Call.Value.(type) {
+		case *ssa.Function:
+			ok = InstrumentedCallees[v.String()] || v.Name() == "verifYield"
+		case *ssa.Builtin:
+			ok = v.Name() == "close"
+		}
+	}
+	return ok && m.P.inHarnessPkg(ins)
+}
+
+// InstrumentedCallees are the calls the native instrumenter precedes with verifSched().
+var InstrumentedCallees = map[string]bool{
+	"(*sync.Mutex).Lock":     true,
+	"(*sync.RWMutex).Lock":   true,
+	"(*sync.RWMutex).RLock":  true,
+	"(*sync.Once).Do":        true,
+	"(*sync.WaitGroup).Wait": true,
+	"time.Sleep":             true,
 }
